@@ -1,6 +1,6 @@
 """C18 - specification tables are exact: name<->text bijections, version tables, table well-formedness (exact,
 finite DATA rules over the extracted literals) + sibling agreement of listings and lookups (MIR)."""
-import json, os, hashlib
+import json, os, hashlib, re
 from framework import Check, VERIF
 from ir import Program, callee_of, has_field
 from flow import origins, is_local_op, call_matches, must_pass, iter_uses
@@ -622,13 +622,15 @@ def sib_rules(C, P):
         for b in P.with_closures(b0):
             somes = [pos for pos, s in b.iter_stmts() if s['k'] == 'assign' and s['rv']['k'] == 'agg' and s['rv'].get('var') == 'Some']
             eqs = [pos for pos, t in b.iter_calls() if call_matches(t, r'ElementName as .*PartialEq>::eq$')]
-            vparam = [l for l, n in b.names.items() if n == 'version' and 1 <= l <= b.argc]
+            # the version mask is the u32 parameter of the function, whatever it is called (inside a closure: the captured variable of that name)
+            vparam = [l for l in range(1, b.argc + 1) if (b.local_ty(l) or '') == 'u32'] if b is b0 else []
+            vnames = {b0.names.get(l) for l in range(1, b0.argc + 1) if (b0.local_ty(l) or '') == 'u32'} - {None}
             ands = []
             for pos, s in b.iter_stmts():
                 if s['k'] == 'assign' and s['rv']['k'] == 'bin' and s['rv']['op'] == 'BitAnd' and 'x' not in s['s']:
                     oa = origins(b, s['rv']['a']) + origins(b, s['rv']['b'])
                     from flow import upvar_names
-                    if any(o[0] == 'param' and o[1] in vparam for o in oa) or 'version' in (upvar_names(b, s['rv']['a']) | upvar_names(b, s['rv']['b'])):
+                    if any(o[0] == 'param' and o[1] in vparam for o in oa) or (vnames & (upvar_names(b, s['rv']['a']) | upvar_names(b, s['rv']['b']))):
                         ands.append(pos)
             if somes and eqs and ands:
                 ok = True
@@ -644,7 +646,11 @@ def sib_rules(C, P):
         somes = [pos for pos, s in rb.iter_stmts() if s['k'] == 'assign' and s['rv']['k'] == 'agg' and s['rv'].get('var') == 'Some' and s['rv'].get('adt') == 'Option']
         eqs = [pos for pos, t in rb.iter_calls() if call_matches(t, r'PartialEq.*::eq$')]
         good = [p for p in somes if any(rb.pos_dominates(e, p) for e in eqs)]
-        C.check(len(good) >= 1 and len(good) == len(somes), 'C18-SIB-dest', 'proposer-returns-only-on-equality', 'reference_dest_value can return a value without the equality test against a DEST item')
+        # alternative form: the value is selected by an iterator search whose predicate (possibly a nested any()) contains the equality test
+        from flow import deep_sources as _dsr
+        rc_ = _dsr(rb, {'l': 0, 'p': []}, depth=14)[1]
+        alt = not somes and any(re.search(r'Iterator>?::(find|filter|find_map|position)$', c or '') for c in rc_) and any((c or '').endswith('::eq') for c in rc_)
+        C.check((len(good) >= 1 and len(good) == len(somes)) or alt, 'C18-SIB-dest', 'proposer-returns-only-on-equality', 'reference_dest_value can return a value without the equality test against a DEST item')
         # the ref_info index in the proposer uses `other.typ`, in the verifier `self.typ`
         vb = P.get('ElementType::verify_reference_dest')
         C.check(len(list(vb.calls_to(r'contains'))) == 1, 'C18-SIB-dest', 'verifier-tests-membership', 'verify_reference_dest no longer tests membership with contains()')
